@@ -25,6 +25,10 @@ def run(ctx):
                    'accepted)', 'DT (element predicates)')
     from mstatic.rules import cmdcalc
     cmdcalc.with_items_predicates(ctx, r10)
+    from mstatic.rules import completion
+    r12 = ctx.rule('R12', 'the scheduled completion / update of an item '
+                   'loads the item from the table it lives in', 'DT')
+    completion.scheduled_completion_loads(ctx, r12)
 
 
 def _run(ctx):
